@@ -17,6 +17,9 @@
 (*          ctx.TimeoutError: the ctx is replaced before the response is    *)
 (*          written), "bad" (malformed head), "hijack" (handler             *)
 (*          hijacks), "hijacknr" (hijack + HijackSetNoResponse)             *)
+(*          "unread" / "bigunread" (POST with a streamed body the handler   *)
+(*          leaves unread: 12 KiB is discarded by the loop, 320 KiB exceeds *)
+(*          the discard budget, so the connection must close - and say so)  *)
 (*          "nrflag" (handler calls HijackSetNoResponse(true) WITHOUT       *)
 (*          hijacking: an ordinary request; the flag is per request)        *)
 (*   hclose: handler calls SetConnectionClose                               *)
@@ -76,6 +79,7 @@ MustClose(c, r, k) ==
   \/ c.dk
   \/ (c.maxReqs > 0 /\ k >= c.maxReqs)
   \/ r.hclose
+  \/ r.kind = "bigunread"      \* an unread remainder beyond the discard budget stays on the wire
 
 RespConn(c, r, k) == IF MustClose(c, r, k) THEN "close"
                      ELSE IF r.ver = "1.0" THEN "keep-alive" ELSE "none"
